@@ -1064,6 +1064,10 @@ pub fn monitors_e2e(trace: &Trace, sc: &Scenario, mon: &mut crate::Mon) {
     if trace.stalled {
         let last = trace.ticks.last().map(|t| t.n).unwrap_or(0);
         let what2 = format!("real event loop [{what}]: after tick {last} the loop published no housekeeping tick for 10 s of virtual time (a second `stats` subscriber with a one-slot queue never reads): the loop is stuck - nothing is routed, no keepalive is sent");
+        // a parked loop detects no failure, retries nothing, relays nothing: C08 ("retries continue indefinitely", "the
+        // surviving uplinks keep carrying the stream throughout") and C09 (return traffic is delivered) fail with it
+        mon.fail("C08", "e2e-loop-stalled", what2.clone());
+        mon.fail("C09", "e2e-loop-stalled", what2.clone());
         mon.fail("C03", "e2e-loop-stalled", what2.clone());
         mon.fail("C20", "e2e-loop-stalled", what2.clone());
         mon.fail("C14", "e2e-loop-stalled", what2.clone());
